@@ -50,6 +50,7 @@ type step struct {
 	CL    uint8  `json:"cl,omitempty"`
 	Block uint64 `json:"block,omitempty"`
 	BH    int    `json:"bh,omitempty"`
+	Rm    bool   `json:"rm,omitempty"` // log: delivered with removed=true (the node's notice that the log's block left the chain)
 	// head
 	To       uint64 `json:"to,omitempty"`
 	Hold     bool   `json:"hold,omitempty"` // log: the node answers the block-time lookup only after head To has been processed
@@ -666,7 +667,9 @@ func (sc *scen) runStep(si int, st *step) {
 			bbh0 = sim.bbhCalls[hID(kindBlock, uint64(st.BH))]
 			sim.mu.Unlock()
 		}
-		sent := sim.push(l.ethLog(st.BH, st.Block, 0))
+		el := l.ethLog(st.BH, st.Block, 0)
+		el.Removed = st.Rm
+		sent := sim.push(el)
 		if hold != nil {
 			if sent {
 				if !waitUntil(rendezvousTimeout, func() bool {
@@ -1732,6 +1735,16 @@ func corpus() []struct {
 		{scenCfg{Wait: false, Finalized: true, Head0: 1000, PollMs: 1, Name: "reobs-not-final-nothing-pending"},
 			[]step{{Op: "log", Tx: 1, Body: 1, Em: 1, Seq: 1, CL: 1, Block: 1000, BH: 1}, hd(1001), {Op: "reorg", Tx: 1, How: "moved", BH: 9, Block: 1030}, {Op: "reobs", Tx: 1}, hd(1031), {Op: "reobs", Tx: 1}}},
 		{scenCfg{Wait: false, Head0: 1000, PollMs: 1, Name: "no-wait-mode"}, []step{lg(1, 1, 1001, 200), hd(1001), lg(2, 2, 1001, 15), hd(1002)}},
+		// a young chain: the head number is below the message's consistency level (unsigned arithmetic must not wrap): forwarded at head 18, not before
+		{scenCfg{Wait: true, Head0: 1, PollMs: 1, Name: "young-chain-head-below-the-consistency-level"},
+			[]step{lg(1, 1, 3, 15), hd(3), hd(4), hd(10), hd(17), hd(18), hd(19)}},
+		// sibling reorg: the transaction moves from block hash 1 to block hash 9 at the same height; the log of the REPLACING block arrives first,
+		// then the node's removed-notice for the old block: the message stays in its (new) block and is forwarded exactly once
+		{scenCfg{Wait: true, Head0: 999, PollMs: 1, Sentinel: true, Name: "removed-notice-after-the-replacing-log"},
+			[]step{{Op: "log", Tx: sentinelTx, Body: sentinelTx, Em: 9, Seq: 0, CL: 1, Block: sentinelHeight, BH: sentinelTx},
+				{Op: "log", Tx: 1, Body: 1, Em: 1, Seq: 1, CL: 2, Block: 1000, BH: 1}, {Op: "reorg", Tx: 1, How: "moved", BH: 9, Block: 1000},
+				{Op: "log", Tx: 1, Body: 1, Em: 1, Seq: 1, CL: 2, Block: 1000, BH: 9}, {Op: "log", Tx: 1, Body: 1, Em: 1, Seq: 1, CL: 2, Block: 1000, BH: 1, Rm: true},
+				hd(1001), hd(1002), hd(1003)}},
 		// sequences are counted per emitter: two emitters publish their first message (sequence 0) in ONE transaction, a third message of
 		// emitter 1 follows; all three are pending under (tx, block, emitter, sequence) and each must be forwarded exactly once
 		{scenCfg{Wait: true, Head0: 999, PollMs: 1, Name: "two-emitters-same-sequence-in-one-transaction"},
